@@ -89,6 +89,19 @@ def history_case(g, cg, doc, n_ops):
             return {"kind": "history", "what": "RecursionError while combining", "op": op,
                     "a": term_json(ta), "b": term_json(tb), "doc": jval(doc)}, steps
         steps += 1
+        # whether two operands can be combined (key-kind with index-kind is refused) depends on the operands, not on what they were used in before
+        try:
+            fa, fb = ta.build(), tb.build()
+            {"and": lambda: fa & fb, "or": lambda: fa | fb, "xor": lambda: fa ^ fb}[op]()
+            fresh_ok = True
+        except TypeError:
+            fresh_ok = False
+        except Exception:
+            fresh_ok = r is not None
+        if fresh_ok != (r is not None):
+            return {"kind": "history", "what": "operands that have been used in earlier combinations are " +
+                    ("refused" if r is None else "accepted") + " although freshly built copies of them are " + ("accepted" if fresh_ok else "refused"),
+                    "op": op, "a": term_json(ta), "b": term_json(tb), "doc": jval(doc)}, steps
         for (t, o), (snap, out) in zip(pool, before):
             after_snap = snapshot(o)
             after_out = E.run_outcome(lambda o=o: obs(o.filter(copy_value(doc))))
